@@ -99,8 +99,15 @@ def main():
             }
             json.dump(meta, open(os.path.join(out, 'meta.json'), 'w'), indent=1)
             table.append((name, files, e.get('verdict'), (e.get('verus_state') or '')[:18] + ' ' + ((e.get('verus_failed') or e.get('harness_failed') or [''])[0]), meta['needs_in_order_to_manifest'][:160]))
-    json.dump([{'id': t[0], 'files': t[1], 'verdict': t[2], 'first_failed_obligation': t[3]} for t in table],
-              open(os.path.join(VERIF, 'seeded', 'INDEX.json'), 'w'), indent=1)
+    import glob
+    idx = []
+    for mp in sorted(glob.glob(os.path.join(VERIF, 'seeded', 'C*', 'meta.json'))):
+        m = json.load(open(mp))
+        c = m['check_against_it']
+        idx.append({'id': m['id'], 'property': m['property'], 'files': m['files_changed'], 'verdict': c.get('verdict'),
+                    'deductive_stage': c.get('deductive_stage'), 'verus_obligations_failed': (c.get('verus_obligations_failed') or [])[:3],
+                    'harnesses_failed': (c.get('harnesses_failed') or [])[:3]})
+    json.dump(idx, open(os.path.join(VERIF, 'seeded', 'INDEX.json'), 'w'), indent=1)
     for t in table:
         print('%-8s %-22s %-44s | %s' % (t[0], t[2], t[3][:44], t[4][:110]))
 
